@@ -9,3 +9,7 @@ import StirVerif.C18.Props
 import StirVerif.C13.Props
 import StirVerif.C14.Props
 import StirVerif.C02.Props
+import StirVerif.C16.Props
+import StirVerif.C10.Props
+import StirVerif.C20.Props
+import StirVerif.C19.Props
